@@ -27,6 +27,7 @@ range: it is a character boundary of the requested file.
 -/
 import TgModel.Lemmas.IdeCheck
 import TgModel.Props.C03
+import TgModel.Lemmas.IdeSemKeeps
 
 namespace Tg.C17
 open Tg.Ide Tg.Ide.Handlers Tg.C03
@@ -146,7 +147,7 @@ theorem foldingRange_documentLink_ranges_valid_all (vfs : List (String × String
 /-- **document symbols: every symbol and every (transitive) child range is a valid range of the
 requested file.**  Behind it is the invariant `SymMap.FilesOK` of the indexer: a symbol in the
 per-file list of `f` is defined in `f`; the `def`s of a defset are written in the defset's file
-(`sameFileDefset`); the fields of a record, the template arguments of a class / multiclass are
+(`defDefset` / `sameFileDefset`); the fields of a record, the template arguments of a class / multiclass are
 defined in the file of the record / multiclass (they are attached to the innermost scope pushed by
 the same statement; value-level code leaves the scope stack exactly as it was, `PostV`). -/
 theorem documentSymbol_ranges_valid {ws : Workspace} (h : Ready ws) (file : Nat) :
@@ -191,5 +192,57 @@ example : ¬ Boundary ['é'] 1 := by
     have : utf8Len 'é' = 2 := by decide
     simp only [byteLen_cons, this] at hb
     omega
+
+/-! ### the defset a `def` joins -/
+
+section defDefset
+open Tg.Ide Tg.Ide.Index
+
+/-- the state is left as it is -/
+def SameState (c c' : IndexCtx) : Prop := c' = c
+
+instance : KeepRel SameState where
+  refl := fun _ => rfl
+  trans := fun h1 h2 => h2.trans h1
+
+/-- `sameFileDefset` only reads the state -/
+theorem sameFileDefset_state : Keeps SameState sameFileDefset := by
+  unfold sameFileDefset currentDefsetId withSM
+  keeps
+
+/-- **a def written inside a multiclass never joins a defset**: while a multiclass scope is open `defDefset`
+answers `none` (and leaves the state as it is) -/
+theorem defDefset_none_in_multiclass (c c' : IndexCtx) (o : Option Nat)
+    (hm : c.scopes.currentMulticlassId.isSome = true)
+    (h : defDefset.run c = .ok (o, c')) : o = none ∧ c' = c := by
+  unfold defDefset at h
+  obtain ⟨ds, c1, h1, hb⟩ := IxM.run_bind_ok h
+  clear h
+  have e : c1 = c := sameFileDefset_state.run _ _ _ h1
+  subst e
+  obtain ⟨m, c2, h2, h⟩ := IxM.run_bind_ok hb
+  clear hb
+  cases h2
+  simp only [StateT.run_pure, hm, if_true] at h
+  cases h
+  exact ⟨rfl, rfl⟩
+
+/-- outside a multiclass `defDefset` is `sameFileDefset` -/
+theorem defDefset_eq_outside_multiclass (c : IndexCtx) (hm : c.scopes.currentMulticlassId = none)
+    (c' : IndexCtx) (o : Option Nat) (h : defDefset.run c = .ok (o, c')) :
+    sameFileDefset.run c = .ok (o, c') := by
+  unfold defDefset at h
+  obtain ⟨ds, c1, h1, hb⟩ := IxM.run_bind_ok h
+  clear h
+  have e : c1 = c := sameFileDefset_state.run _ _ _ h1
+  subst e
+  obtain ⟨m, c2, h2, h⟩ := IxM.run_bind_ok hb
+  clear hb
+  cases h2
+  simp only [StateT.run_pure, hm, Option.isSome_none, Bool.false_eq_true, if_false] at h
+  cases h
+  exact h1
+
+end defDefset
 
 end Tg.C17
